@@ -133,7 +133,9 @@ func Scalar(t *rapid.T, label string, kinds ...lang.Kind) lang.Value {
 func HashKey(t *rapid.T, label string) lang.Value {
 	switch rapid.IntRange(0, 5).Draw(t, label+"_kk") {
 	case 0, 1, 2:
-		return lang.Str(rapid.SampledFrom([]string{"a", "b", "c", "Name", "k1", "k2", "1", "2.5", "é", "è", "ü", "д", "ж", "世", "中", "ab", "ba", "", "a ", "A"}).Draw(t, label))
+		return lang.Str(rapid.SampledFrom([]string{"a", "b", "c", "Name", "k1", "k2", "1", "2.5", "é", "è", "ü", "д", "ж", "世", "中", "ab", "ba", "", "a ", "A",
+			// pairs whose 32-bit FNV-1a values coincide (their 64-bit values do not)
+			"costarring", "liquid", "declinate", "macallums", "altarage", "zinke", "altarages", "zinkes"}).Draw(t, label))
 	case 3, 4:
 		return lang.Int(rapid.Int64Range(-2, 6).Draw(t, label))
 	}
